@@ -667,6 +667,7 @@ class Engine:
         self.note_generator(op, n_acts_before)
         ob = {
             "op": op,
+            "struck": bool(self.fail_idx_now),
             "lo": lo,
             "hi": hi,
             "res": {vn: {"out": r["out"], "log": r["log"]} for vn, r in res.items()},
@@ -1369,7 +1370,10 @@ class Engine:
             # (events of one operation are sorted in the digest: the order of the events of one
             # binding -- e.g. #loop_a / #loop_b of a multi-target loop -- is unspecified and follows
             # the hash seed; the verdict compares them as multisets)
-            "oplog": digest([[ob["res"], {k: sorted(v, key=_key) for k, v in ob["got"].items()}] for ob in self.obs]),
+            # (... and which probes were served at the very event an injected subscriber failure
+            # struck is unspecified too: the deliveries of such an operation stay out of the digest)
+            "oplog": digest([[ob["res"], {} if ob.get("struck") else {k: sorted(v, key=_key) for k, v in ob["got"].items()}]
+                             for ob in self.obs]),
             "viol": viol,
             "foreign": [[v[0], v[1]] for v in foreign],
             "herr": self.harness_err,
